@@ -166,3 +166,16 @@ func Cyclic(vals []float64) (next func() orb.Point, reset func()) {
 			i = 0
 		}
 }
+
+// CyclicAt is Cyclic with a reset that chooses the starting offset into vals (in pairs),
+// so that every consecutive pair of values can occupy every slot of a shape.
+func CyclicAt(vals []float64) (next func() orb.Point, resetAt func(pairOffset int)) {
+	i := 0
+	return func() orb.Point {
+			p := orb.Point{vals[i%len(vals)], vals[(i+1)%len(vals)]}
+			i += 2
+			return p
+		}, func(off int) {
+			i = 2 * off
+		}
+}
